@@ -1,7 +1,8 @@
 // C01/C04/C11 harness: Circuit::legalize from /repo's working tree
 //   legal gen rand SEED COUNT MODE      MODE bits: 1 = row-high cells only + legalize twice (C11), 2 = no turned cells,
 //                                       4 = magnitude stream (scale up to 2^16), 8 = trivially feasible stream (low utilisation, no polarity),
-//                                       16 = side-by-side row segments with different orientations, 32 = exactly tiled rows
+//                                       16 = side-by-side row segments with different orientations, 32 = exactly tiled rows,
+//                                       64 = rows in 2-4 pieces that abut exactly (or gap 1), 2-5 multi-row cells aimed at the seams (cgen.hpp genAbut)
 //   legal run < cases
 // case: "LG <rows> <cells> ow10 oy10 oh10 effort twice"
 // result: "<outcome><placement> @ order"  [ " || <outcome2><placement2> @ order2" when twice ]
@@ -34,6 +35,7 @@ int main(int argc, char **argv) {
       if (m & 4) o.scale = 1LL << g.uni(4, 16);
       if (m & 8) { o.utilLo = 5; o.utilHi = 45; o.polarity = false; o.multirow = false; o.maxCells = 8; }
       if (m & 16) o.mixedSplit = true;
+      if (m & 64) { o.abut = true; if (g.coin(20)) o.scale = 1LL << g.uni(4, 16); }   // abutting row pieces + multi-row cells aimed at the seams
       if (m & 32) o.tile = true;            // rows tiled exactly by row-high cells (legal, full segments)   // side-by-side segments of one y may have different orientations
       TCircuit t = genCircuit(g, o);
       int ow = 0, oy = 0, oh = 0;   // defaults of effort 3? the harness overrides only when non-default is drawn
